@@ -275,3 +275,13 @@ def r9(ctx):
     c01.r1(ctx)
     c01.r3(ctx)
     c01.r6(ctx)
+
+
+@rule('C02', 'R-C02-10', 'prerequisite (the tables train_bpe writes are well formed)',
+      'the incremental statistics and the word rewriting of train_bpe keep their guards (R-C19-5, R-C19-8 re-evaluated): a pair that is '
+      'decremented twice makes replace_pair skip a word, two later merges then produce the same bytes, the saved table has a hole in its ids '
+      'and every id above the hole decodes to the wrong bytes')
+def r10(ctx):
+    from rules import c19
+    c19.r5(ctx)
+    c19.r8(ctx)
